@@ -167,8 +167,11 @@ fn to_t<T: Sc>(bits: &[u64]) -> Vec<T> {
     bits.iter().map(|b| T::of_bits(*b)).collect()
 }
 
-/// Jacobians of the two flavours: bitwise equal, or equal within 64u of the column scale
-fn jac_close<T: Sc>(a: &[u64], b: &[u64], rows: usize) -> (bool, bool) {
+/// Jacobians of the two flavours: bitwise equal, or equal within a rounding-level bound.
+/// A Jacobian column is U(U^T v) - v with v = W.D_k.C: after cancellation its own size says
+/// nothing about its rounding error, which lives on the scale of v. `term_scale` is that
+/// scale (max_k ||W.D_k||_inf-rowsum x max|C|, from the reference mathematics).
+fn jac_close<T: Sc>(a: &[u64], b: &[u64], rows: usize, term_scale: f64) -> (bool, bool) {
     if a == b {
         return (true, true);
     }
@@ -179,21 +182,65 @@ fn jac_close<T: Sc>(a: &[u64], b: &[u64], rows: usize) -> (bool, bool) {
     let bv: Vec<T> = to_t(b);
     let cols = a.len() / rows;
     for c in 0..cols {
-        let mut scale = 0.0f64;
+        let mut scale = term_scale;
         for i in 0..rows {
-            scale = scale.max(av[c * rows + i].f().abs()).max(bv[c * rows + i].f().abs());
+            let (x, y) = (av[c * rows + i].f().abs(), bv[c * rows + i].f().abs());
+            if x.is_finite() && y.is_finite() {
+                scale = scale.max(x).max(y);
+            }
         }
         for i in 0..rows {
             let (x, y) = (av[c * rows + i].f(), bv[c * rows + i].f());
-            if (x.is_nan() && y.is_nan()) || x == y {
+            if x == y || !x.is_finite() || !y.is_finite() {
                 continue;
             }
-            if !((x - y).abs() <= 64.0 * T::u() * scale + 4.0 * T::tiny()) {
+            if !scale.is_finite() {
+                continue;
+            }
+            if !((x - y).abs() <= 64.0 * (rows as f64 + 8.0) * T::u() * scale + 4.0 * T::tiny()) {
                 return (false, false);
             }
         }
     }
     (false, true)
+}
+
+/// magnitude of the terms a Jacobian at `params` with coefficients `coeff` is formed from
+fn jac_term_scale<T: Sc>(w: &World<T>, params: &[u64], coeff: &Option<Vec<u64>>) -> f64 {
+    let p: Vec<T> = to_t(params);
+    let cmax = match coeff {
+        Some(c) => to_t::<T>(c).iter().map(|v| v.f().abs()).filter(|v| v.is_finite()).fold(0.0f64, f64::max),
+        None => {
+            // coefficients not observable (inside a fit): independent f64 least squares at
+            // these parameters; no usable reference => no meaningful bound => gate
+            let a = crate::refmath::M64::from_t(&crate::refmath::phi_w::<T>(&w.spec, &w.x, w.w.as_ref(), &p));
+            let y = crate::refmath::M64::from_t(&w.weighted_y());
+            match crate::refmath::lstsq(&a, &y, 1e-13) {
+                Some(c) => c.d.iter().map(|v| v.abs()).filter(|v| v.is_finite()).fold(0.0f64, f64::max),
+                None => return f64::INFINITY,
+            }
+        }
+    };
+    let wabs = |i: usize| w.w.as_ref().map(|x| x[i].f().abs()).unwrap_or(1.0);
+    let mut ds = 0.0f64;
+    for k in 0..w.p() {
+        let d = crate::refmath::dphi::<T>(&w.spec, k, &w.x, &p);
+        for i in 0..d.nrows() {
+            let mut row = 0.0;
+            for j in 0..d.ncols() {
+                row += (d[(i, j)].f() * wabs(i)).abs();
+            }
+            if row.is_finite() {
+                ds = ds.max(row);
+            }
+        }
+    }
+    // coefficients small by cancellation still carry rounding noise of size ||Yw||/||W.Phi||
+    let yw = w.weighted_y().iter().map(|v| v.f().abs()).filter(|v| v.is_finite()).fold(0.0f64, f64::max);
+    let phi = crate::refmath::phi_w::<T>(&w.spec, &w.x, w.w.as_ref(), &p);
+    let pn = phi.iter().map(|v| v.f().abs()).filter(|v| v.is_finite()).fold(0.0f64, f64::max);
+    let c_noise = if pn > 0.0 { yw / pn } else { 0.0 };
+    ds * cmax.max(c_noise)
 }
 
 /// compare two executions step by step. `strict`: everything bitwise (same code, other
@@ -209,6 +256,7 @@ fn compare<T: Sc>(
     class: &str,
     what: &str,
     nrows: usize,
+    world: &World<T>,
 ) {
     if a.build_snap != b.build_snap {
         rep.violate(sc, class, &format!("{what}/build"), "state after build() differs".into());
@@ -228,7 +276,11 @@ fn compare<T: Sc>(
                 if ja.bits.is_some() != jb.bits.is_some() || ja.shape != jb.shape {
                     rep.violate(sc, class, &format!("{what}/{name}/presence"), format!("op {}: Jacobian present in one execution only (or shapes differ: {:?} vs {:?})", sa.op, ja.shape, jb.shape));
                 } else if let (Some(x), Some(y)) = (&ja.bits, &jb.bits) {
-                    let (bit, close) = jac_close::<T>(x, y, ja.shape.0);
+                    let ts = match &sa.snap {
+                        Some(s) if !strict && x != y => jac_term_scale(world, &s.params, &s.coeff),
+                        _ => 0.0,
+                    };
+                    let (bit, close) = jac_close::<T>(x, y, ja.shape.0, ts);
                     if bit {
                         rep.probe("jacobian_bitwise_equal");
                     } else {
@@ -243,7 +295,19 @@ fn compare<T: Sc>(
             (Extra::Tapped(ta), Extra::Tapped(tb)) => {
                 // walk the optimizer's view of both problems
                 let mut diverged = false;
+                let mut cur_params: Option<Vec<u64>> = sa.snap.as_ref().map(|s| s.params.clone());
+                let _ = &cur_params;
+                // parameters in effect while walking: start from the state before the fit
+                let mut walk_params: Option<Vec<u64>> = None;
                 for (ea, eb) in ta.events.iter().zip(tb.events.iter()) {
+                    if let TapKind::SetParams(b) = &ea.kind {
+                        walk_params = Some(b.clone());
+                    }
+                    if let TapKind::Params(b) = &ea.kind {
+                        if walk_params.is_none() {
+                            walk_params = Some(b.clone());
+                        }
+                    }
                     match (&ea.kind, &eb.kind) {
                         (TapKind::Jacobian(x), TapKind::Jacobian(y)) => {
                             if x.is_some() != y.is_some() {
@@ -252,7 +316,13 @@ fn compare<T: Sc>(
                                 break;
                             }
                             if let (Some(x), Some(y)) = (x, y) {
-                                let (bit, close) = jac_close::<T>(x, y, nrows);
+                                // inside the fit the coefficients are not visible: take the
+                                // noise scale (||Yw||/||W.Phi||) through an empty coefficient set
+                                let ts = match &walk_params {
+                                    Some(p) if !strict && x != y => jac_term_scale(world, p, &None),
+                                    _ => 0.0,
+                                };
+                                let (bit, close) = jac_close::<T>(x, y, nrows, ts);
                                 if !bit {
                                     jac_bitwise_so_far = false;
                                     rep.probe("jacobian_not_bitwise");
@@ -281,13 +351,21 @@ fn compare<T: Sc>(
                     }
                     rep.probe("fits_compared_bitwise");
                 } else if !jac_bitwise_so_far {
-                    // toleranced regime: same success class at least
+                    // toleranced regime: the two optimizers saw Jacobians that differ by
+                    // rounding, their trajectories (and every occurrence-keyed fault) are no
+                    // longer comparable step by step
                     if ta.termination_successful != tb.termination_successful {
                         rep.probe("fit_outcome_differs_after_jacobian_rounding");
                     }
+                    rep.probe("comparison_stopped_after_rounding_divergence");
+                    return;
                 }
             }
             (Extra::Fit(fa), Extra::Fit(fb)) => {
+                if !jac_bitwise_so_far {
+                    rep.probe("comparison_stopped_after_rounding_divergence");
+                    return;
+                }
                 if jac_bitwise_so_far && (fa.ok != fb.ok || fa.termination != fb.termination || fa.evaluations != fb.evaluations || fa.nl_params != fb.nl_params || fa.objective.bits() != fb.objective.bits()) {
                     rep.violate(sc, class, &format!("{what}/{name}/result"), format!("op {}: fit results differ: {} ({} evaluations) vs {} ({})", sa.op, fa.termination, fa.evaluations, fb.termination, fb.evaluations));
                 }
@@ -352,7 +430,8 @@ fn exec_t<T: Sc, F: Factory<T>>(sc: &Scenario) -> RunReport {
     let b = run_variant_plain::<T, F>(sc, false, &SchedSpec::sequentialish(), true);
     rep.executions += 1;
     rep.events += b.log.len() as u64;
-    compare(sc, &mut rep, &a, &b, false, "SEQ_PAR_MISMATCH", "seq-vs-par", nrows);
+    let world = World::<T>::from_scenario(sc);
+    compare(sc, &mut rep, &a, &b, false, "SEQ_PAR_MISMATCH", "seq-vs-par", nrows, &world);
 
     // A': parallel in production mode: fit() + into_sequential must preserve what the tap run saw
     let has_fit = sc.ops.iter().any(|o| matches!(o, Op::Fit | Op::FitWithStatistics));
@@ -409,7 +488,7 @@ fn exec_t<T: Sc, F: Factory<T>>(sc: &Scenario) -> RunReport {
             Ok(v) => {
                 rep.executions += 1;
                 rep.events += v.log.len() as u64;
-                compare(sc, &mut rep, &a, &v, true, "SCHEDULE_DEPENDENCE", &format!("pool{}-vs-pool{}", sc.sched.pool, s.pool), nrows);
+                compare(sc, &mut rep, &a, &v, true, "SCHEDULE_DEPENDENCE", &format!("pool{}-vs-pool{}", sc.sched.pool, s.pool), nrows, &world);
                 rep.probe_n("sched_joins", v.stats.joins);
                 rep.probe_n("sched_inline", v.stats.inline);
                 rep.probe_n("sched_stolen_late", v.stats.late);
